@@ -14,6 +14,7 @@ import DialsModel.Model.Split
 import DialsModel.Lemmas.Parse
 import DialsModel.Lemmas.Scan
 import DialsModel.Lemmas.Duration
+import DialsModel.Lemmas.ScanWords
 
 namespace Dials.C15
 open Dials Dials.Parse
@@ -302,6 +303,75 @@ theorem C15_scanner_examples :
     scanText false "\"\\'\"".toList = some [.scanErr] ∧
     scanText false "\"\\400\"".toList = some [.str none, .eof] ∧
     scanText true "k:`r\\n`".toList = some [.word ['k'], .colon, .str (some "r\\n".toList), .eof] := by
+  refine ⟨by decide, by decide, by decide, by decide, by decide⟩
+
+/-! ### bare words (beyond the canonical form: what people type - `--tags=a,b,c`, `LIMITS=cpu:2,mem:4`) -/
+
+/-- Which characters a bare word may hold (finite table over ASCII): the printable ones except backslash, comma and the
+three quotes - in map mode also except the colon.  The SPACE is one of them: only leading white space is skipped. -/
+theorem C15_bare_word_chars :
+    ∀ k : Fin 128, identRune false (Char.ofNat k.val) = decide (32 ≤ k.val ∧ k.val ≤ 126 ∧ k.val ∉ [92, 44, 34, 39, 96]) ∧
+      identRune true (Char.ofNat k.val) = decide (32 ≤ k.val ∧ k.val ≤ 126 ∧ k.val ∉ [92, 44, 34, 39, 96, 58]) := by
+  decide +kernel
+
+/-- Any text made of bare words, quoted ASCII strings, commas and (in map mode) colons - no two words adjacent - is
+scanned into exactly the corresponding tokens. -/
+theorem C15_renderable_scans (m : Bool) (ps : List WPiece) (h : Renderable m ps) :
+    scanText m (wrender ps) = some (ps.map WPiece.tok ++ [.eof]) :=
+  scanText_wrender m ps h
+
+/-- Comma-separated bare words parse to exactly those words (slices), in order - inner and trailing spaces included. -/
+theorem C15_bare_words_text (ws : List S) (hw : ∀ w ∈ ws, BareWord false w) :
+    sliceText (joinComma ws) = some (.ok ws) := by
+  cases ws with
+  | nil => simp [sliceText, joinComma]
+  | cons x xs =>
+    have hx := (hw x (by simp)).1
+    have hne : (joinComma (x :: xs)).isEmpty = false := by
+      cases x with
+      | nil => exact absurd rfl hx
+      | cons c cs => cases xs <;> simp [joinComma]
+    have hscan : scanText false (joinComma (x :: xs)) = some (wordToks (x :: xs)) := by
+      rw [joinComma_wrender, wordToks_pieces]
+      exact scanText_wrender false _ (wordPieces_renderable false _ hw)
+    simp only [sliceText, hne, hscan, Option.map_some, stringSlice, Bool.false_eq_true, if_false]
+    rw [wordToks_deQuote, splitSlice_deQuote]
+    simpa using C15_slice_tokens (x :: xs)
+
+/-- ... and to exactly that set when no word repeats. -/
+theorem C15_bare_words_set_text (ws : List S) (hw : ∀ w ∈ ws, BareWord false w) (hnd : ws.Nodup) :
+    setText (joinComma ws) = some (.ok ws) := by
+  cases ws with
+  | nil => simp [setText, joinComma]
+  | cons x xs =>
+    have hx := (hw x (by simp)).1
+    have hne : (joinComma (x :: xs)).isEmpty = false := by
+      cases x with
+      | nil => exact absurd rfl hx
+      | cons c cs => cases xs <;> simp [joinComma]
+    have hscan : scanText false (joinComma (x :: xs)) = some (wordToks (x :: xs)) := by
+      rw [joinComma_wrender, wordToks_pieces]
+      exact scanText_wrender false _ (wordPieces_renderable false _ hw)
+    simp only [setText, hne, hscan, Option.map_some, stringSet, Bool.false_eq_true, if_false]
+    rw [wordToks_deQuote, splitSet_deQuote]
+    simpa using C15_set_tokens (x :: xs) hnd
+
+/-- `k:v,k2:v2` with bare keys and values (distinct keys) parses to exactly those pairs. -/
+theorem C15_bare_map_text (kvs : List (S × S)) (hw : ∀ p ∈ kvs, BareWord true p.1 ∧ BareWord true p.2)
+    (hk : (kvs.map (·.1)).Nodup) : mapText (joinPairs kvs) = some (.ok kvs) := by
+  have hne : ∀ p ∈ kvs, p.1 ≠ [] := fun p hp => (hw p hp).1.1
+  have hscan : scanText true (joinPairs kvs) = some ((canonMap kvs).map deQuote) := by
+    rw [joinPairs_wrender, ← pairPieces_toks]
+    exact scanText_wrender true _ (pairPieces_renderable kvs hw)
+  simp only [mapText, hscan, Option.map_some, mapStringString, splitMapWith_deQuote]
+  exact congrArg some (C15_map_tokens kvs hk hne)
+
+theorem C15_bare_words_examples :
+    sliceText "a b, c".toList = some (.ok ["a b".toList, "c".toList]) ∧
+    sliceText "db1:5432,db2:5432".toList = some (.ok ["db1:5432".toList, "db2:5432".toList]) ∧
+    mapText "cpu:2,mem:4".toList = some (.ok [("cpu".toList, "2".toList), ("mem".toList, "4".toList)]) ∧
+    mapText "a:b:c".toList = some (.err "unexpected colon") ∧
+    sliceText "a,\"b,c\",d".toList = some (.ok ["a".toList, "b,c".toList, "d".toList]) := by
   refine ⟨by decide, by decide, by decide, by decide, by decide⟩
 
 /-! ### durations and bools (models of time.Duration.String, time.ParseDuration, strconv.ParseBool; tied by stream 10) -/
